@@ -403,7 +403,11 @@ func (cs *Contracts) LoadContractFile(path, pkgPath string) error {
 			}
 			rest := strings.TrimSpace(t[q+1:])
 			nth := 0
-			if strings.HasPrefix(rest, "#") {
+			if strings.HasPrefix(rest, "#*") {
+				// every source line of the function that contains the text
+				nth = -1
+				rest = strings.TrimSpace(rest[2:])
+			} else if strings.HasPrefix(rest, "#") {
 				j := 1
 				for j < len(rest) && rest[j] >= '0' && rest[j] <= '9' {
 					j++
